@@ -88,6 +88,26 @@ func TestIteratorShowsNewestVisibleVersions(t *testing.T) {
 		for ok := it.Last(); ok; ok = it.Prev() {
 			bwd = append([]string{string(it.Key()) + "=" + string(it.Value())}, bwd...)
 		}
+		// stepping off either end is remembered: the iterator is not valid there, and one step back lands on
+		// the last / first pair
+		if len(ks) > 0 {
+			for ok := it.First(); ok; ok = it.Next() {
+			}
+			if it.Key() != nil || it.Value() != nil {
+				t.Errorf("%s: after stepping off the end Key/Value are %q/%q, want nil", name, it.Key(), it.Value())
+			}
+			if !it.Prev() || string(it.Key()) != ks[len(ks)-1] {
+				t.Errorf("%s: Prev after stepping off the end lands on %q, want %q", name, it.Key(), ks[len(ks)-1])
+			}
+			for ok := it.Last(); ok; ok = it.Prev() {
+			}
+			if it.Key() != nil || it.Value() != nil {
+				t.Errorf("%s: after stepping off the start Key/Value are %q/%q, want nil", name, it.Key(), it.Value())
+			}
+			if !it.Next() || string(it.Key()) != ks[0] {
+				t.Errorf("%s: Next after stepping off the start lands on %q, want %q", name, it.Key(), ks[0])
+			}
+		}
 		it.Release()
 		var exp []string
 		for _, k := range ks {
